@@ -247,6 +247,10 @@ def quick_family() -> List[Skeleton]:
                 E(nm.m(), [E(fam + s2)]),
                 E(nm.m(), [E("$deref", fields={"main_reg": E(fam + ".64"), "constant_offset": E(nm.d())})])],
                 "cap", "regcap")
+    for fam in ("&genreg", "&indreg"):
+        add(f"{fam} with a dotted label before the width suffix", [
+            E(nm.m(), [E(fam + ".acc.64"), E(nm.o())]), E(nm.m(), [E(fam + ".acc.32")]),
+            E(nm.m(), [E(fam + ".tmp.16"), E(fam + ".acc.16")]), E(nm.m(), [E(fam + ".tmp.32")])], "cap", "regcap")
     add("register capture first inside deref", [
         E(nm.m(), [E("$deref", fields={"main_reg": E("&genreg.64"), "register_multiplier": E("&indreg.64"),
                                        "constant_multiplier": E(nm.d())})]),
